@@ -1036,8 +1036,24 @@ def analyze_crash(hist_path, tier, seed, inject=None, keep_fail_images=True):
     nsample = 0
     for il, si, p, im, dg, allowed, is_full, cands in records:
         seg = tr.segments[si]
-        (status, val, _), raw = real[il]
+        (status, val, opened), raw = real[il]
         where = {"op_index": seg.op_index, "op": seg.label, "prefix": p, "of": len(seg.ops), "image": im.recipe()}
+        if status == "ok" and opened is not None and not inject:
+            # C20 on crash images: after recovery the directory holds exactly what the recovered
+            # version names (orphans of the interrupted operation are swept)
+            stats["recovery_listings"] = stats.get("recovery_listings", 0) + 1
+            for lk, ldet in check_listing(opened, "open of a crash image", True):
+                if lk == "leak":
+                    # the property speaks of table, blob and version files: a leftover temp
+                    # file of the interrupted `current` rewrite (.tmpXXXX) is not one of them
+                    newest, allf = expected_files(opened)
+                    keep = allf | {"current"} | {"v%d" % vid for vid, _ in opened.svs}
+                    extra = sorted(f for f in (opened.files - keep) if f.startswith(("tables/", "blobs/")) or re.match(r"v\d+$", f))
+                    if not extra:
+                        stats["recovery_tmp_leftovers"] = stats.get("recovery_tmp_leftovers", 0) + 1
+                        continue
+                    ldet = "after recovery of a crash image the directory holds files the recovered version does not name: %s" % extra
+                fail("recovery-" + lk, ldet, True, where=where, image_obj=im)
         if status == "ok":
             got = val
             if got not in allowed:
@@ -1213,6 +1229,7 @@ def fault_plan(hist_path, tier, seed):
 
 def fault_history(hist_path, op_index, tag, variant=0):
     """history = ops[:i+1] + retry of op i + the two following ops  (variant 0);
+    variant 4 stops right after the failed operation (the directory must reopen as it is);
     variants 1..3 do NOT retry but go on with a different publishing operation (the failed
     attempt's leftovers - a complete or partial v<N+1>, temp files, unpublished tables - must
     not disturb it): 1 = major compaction, 2 = clear, 3 = drop_range(..)"""
@@ -1220,6 +1237,14 @@ def fault_history(hist_path, op_index, tag, variant=0):
     cfg, ops = lines[0], lines[1:]
     op = ops[op_index]
     new = ops[:op_index + 1]
+    if variant == 4:
+        # stop right after the failed operation: the directory as it is then must reopen
+        # ("reopening at any time afterwards yields the state from before or after the call")
+        d = os.path.join(WORK, "hist")
+        os.makedirs(d, exist_ok=True)
+        p = os.path.join(d, "%s-%s.hist" % (os.path.basename(hist_path).replace(".hist", ""), tag))
+        open(p, "w").write("\n".join([cfg] + new) + "\n")
+        return p
     if variant and op != "reopen":
         new.append({1: "major 300 min", 2: "clear", 3: "droprange u u"}[variant])
     elif op.split()[0] == "flushactive":
@@ -1239,7 +1264,7 @@ def run_fault(task):
     t0 = time.time()
     fails = []
     tag = "f%d-%s" % (task["op_index"], task["inject"].replace(":", "_"))
-    variant = (0, 0, 1, 0, 2, 0, 3, 1)[(task["k"] + task["op_index"]) % 8]
+    variant = (0, 4, 1, 0, 2, 4, 3, 1, 0, 4)[(task["k"] + task["op_index"]) % 10]
     if variant:
         tag += "-alt%d" % variant
     hp = fault_history(task["history"], task["op_index"], tag, variant)
@@ -1292,6 +1317,8 @@ def run_fault(task):
         last = (blocks[-1] if blocks else first).current() if not flags["fatal"] else None
         if status != "ok":
             fail("fault-unrecoverable", "reopening the directory left at the end: OPEN %s %s" % (status, val))
+        elif variant == 4 and val in [task["before"], task["after"]] + list(task["mids"]):
+            pass  # stopped right after the failed call: before or after, as the property says
         elif last is not None and val != last and not flags["panic"]:
             fail("fault-unrecoverable", "directory left at the end recovers to %s but the last dump was %s" % (fmt_state(val), fmt_state(last)))
     shutil.rmtree(wd, ignore_errors=True)
@@ -1551,7 +1578,7 @@ def run(mode, tier="quick", seed=1, procs=None):
                 jobs.append((p, tier, seed))
             exp = pool.map_async(_expected_job, ["S2-blob-dir-fsync"])
             for r in pool.imap_unordered(_crash_job, jobs):
-                all_fails += r["fails"]
+                all_fails += [f for f in r["fails"] if not f["kind"].startswith("recovery-")]
                 add_stats(stats, r["stats"])
                 result["samples"] += r["samples"][:1]
                 if r["stats"].get("opens", 0) > 0 and r["stats"].get("protocol_ok", 0) > 0:
@@ -1613,7 +1640,20 @@ def run(mode, tier="quick", seed=1, procs=None):
                 if txt.startswith("cfg "):
                     hists.append(write_hist("reclaim-s%d-g%03d-%s" % (seed, i, prof), txt))
             n = len(hists)
+            # crash images of a few histories (mostly key-value separated): only the listing
+            # after recovery is judged here (kinds recovery-leak / recovery-live-file-missing);
+            # what the recovered state must be is C05's business
+            cjobs = []
+            for i in range(10 if quick else 40):
+                cb = i % 4 != 3
+                cp = write_hist("reclaim-s%d-c%02d%s" % (seed, i, "b" if cb else ""), gen_history(seed * 1000 + 700 + i, cb, 10 + (i * 3) % 8))
+                cjobs.append((cp, tier, seed))
+            crash_async = pool.map_async(_crash_job, cjobs)
             exp = pool.map_async(_expected_job, ["S3-clear-leak", "S4-empty-ingest-leak"])
+            for r in crash_async.get():
+                all_fails += [f for f in r["fails"] if f["kind"].startswith("recovery-") or f["kind"] == "engine-exception"]
+                stats["recovery_listings"] = stats.get("recovery_listings", 0) + r["stats"].get("recovery_listings", 0)
+                stats["crash_histories"] = stats.get("crash_histories", 0) + 1
             for r in pool.imap_unordered(_reclaim_job, hists):
                 all_fails += r["fails"]
                 add_stats(stats, r["stats"])
